@@ -496,6 +496,7 @@ func runC18(c *Ctx) {
 	checkQueueStartedOnce(c, "C18-R4")
 	checkNoQueueSendUnderClientMutex(c, "C18-R5")
 	checkCallbackProducersHandOverInline(c, "C18-R5")
+	checkClientStopAlwaysStopsQueue(c, "C18-R5")
 }
 
 // quitSignalLeavesLoop: the quit case sits in a step function f that the worker loop calls. It leaves the loop if every
@@ -568,4 +569,61 @@ func quitSignalLeavesLoop(p *Program, f *ssa.Function, entry, via *ssa.BasicBloc
 		}
 	}
 	return true, sig
+}
+
+// checkClientStopAlwaysStopsQueue: a chain client that owns a notification queue starts the queue's worker when it is
+// started, whatever happens afterwards; the method that shuts the client down (it closes the client's quit channel)
+// therefore stops the queue on every path from that point to its return. A shortcut ("nothing else was set up, so there is
+// nothing else to tear down") leaks the worker, its overflow list and everything queued, and the worker keeps accepting
+// sends.
+func checkClientStopAlwaysStopsQueue(c *Ctx, rule string) {
+	p := c.P
+	isQueueStop := func(ins ssa.Instruction) bool {
+		call, ok := ins.(*ssa.Call)
+		if !ok || calleeShort(&call.Call) != "Stop" {
+			return false
+		}
+		g := call.Call.StaticCallee()
+		return g != nil && g.Signature.Recv() != nil && recvName(g) == "ConcurrentQueue"
+	}
+	n := 0
+	for _, fn := range p.FuncsIn("chain") {
+		if fn.Parent() != nil || fn.Signature.Recv() == nil {
+			continue
+		}
+		// owner of a queue: the receiver's struct has a field of the queue type
+		owns := false
+		rt := fn.Signature.Recv().Type()
+		if pt, ok := rt.Underlying().(*types.Pointer); ok {
+			rt = pt.Elem()
+		}
+		if st, ok := rt.Underlying().(*types.Struct); ok {
+			for i := 0; i < st.NumFields(); i++ {
+				if strings.HasSuffix(st.Field(i).Type().String(), "ConcurrentQueue") {
+					owns = true
+				}
+			}
+		}
+		if !owns {
+			continue
+		}
+		for _, call := range callsNamed(fn, "close") {
+			if len(call.Call.Args) != 1 {
+				continue
+			}
+			if _, f, _, ok := fieldOf(stripConv(call.Call.Args[0])); !ok || f != "quit" {
+				continue
+			}
+			n++
+			q := &PathQuery{Fn: fn, Barrier: viaHelpers("queue.Stop", isQueueStop, true)}
+			q.Target = func(ins ssa.Instruction, _ *ssa.BasicBlock) bool { _, isRet := ins.(*ssa.Return); return isRet }
+			hits := q.From(call)
+			detail := ""
+			if len(hits) > 0 {
+				detail = fnName(fn) + " closes the client's quit channel and can return at " + p.Pos(hits[0].Ins.Pos()) + " without stopping the notification queue: the queue's worker (started with the client) never terminates and keeps accepting notifications"
+			}
+			c.Check(rule, "client-stop-always-stops-queue:"+fnName(fn), call.Pos(), len(hits) == 0, detail)
+		}
+	}
+	c.Floor(rule, "client shutdown functions owning a notification queue", n, 1)
 }
